@@ -1,7 +1,8 @@
 #!/usr/bin/env python3
 """Mutation probe runner (DESIGN.md §7).
 
-usage: tools/mutate.py [-k] [-t tier] <mutant-id>...   |  tools/mutate.py --list
+usage: tools/mutate.py [-k] [-n] [-t tier] <mutant-id>... | caught | all   |  tools/mutate.py --list
+       (-n: do not re-run the pinned suite; 'caught': every mutant last logged as caught = regression)
 
 For each mutant: copy /repo to /tmp/mut-<id>/repo, apply the textual edit, make
 sure it still builds and passes the pinned suite (a mutant that fails the suite
@@ -39,7 +40,7 @@ def suite(cwd):
         time.sleep(1 + attempt)
     return False, out
 
-def probe(mid, tier="quick", keep=False):
+def probe(mid, tier="quick", keep=False, nosuite=False):
     m = MUTANTS[mid]
     root = f"/tmp/mut-{mid}"
     shutil.rmtree(root, ignore_errors=True)
@@ -56,6 +57,8 @@ def probe(mid, tier="quick", keep=False):
     b = run("go build ./... && go build -tags verif ./...", cwd=repo)
     if b.returncode != 0:
         suite_ok, sout = False, (b.stdout + b.stderr)
+    elif nosuite:
+        suite_ok, sout = True, "(suite not re-run: regression of a mutant that passed it before)"
     else:
         suite_ok, sout = suite(repo)
     class R: pass
@@ -87,12 +90,21 @@ def main():
             print(k, m["props"], m.get("what", ""))
         return
     keep = False
+    nosuite = False
     tier = "quick"
     while args and args[0].startswith("-"):
         if args[0] == "-k": keep = True; args = args[1:]
+        elif args[0] == "-n": nosuite = True; args = args[1:]
         elif args[0] == "-t": tier = args[1]; args = args[2:]
         else: break
-    if args == ["all"]:
+    if args == ["caught"]:
+        # regression: every mutant whose latest logged status is "caught"
+        last = {}
+        for l in open("/verif/MUTATION_LOG.jsonl"):
+            try: d = json.loads(l); last[d["id"]] = d.get("status")
+            except Exception: pass
+        args = [k for k in MUTANTS if last.get(k) == "caught"]
+    elif args == ["all"]:
         args = list(MUTANTS)
     else:
         exp = []
@@ -100,7 +112,8 @@ def main():
             exp += [k for k in MUTANTS if k.startswith(a[:-1])] if a.endswith("*") else [a]
         args = exp
     for mid in args:
-        res = probe(mid, tier, keep)
+        res = probe(mid, tier, keep, nosuite)
+        res["suite_rerun"] = not nosuite
         res["at"] = time.strftime("%Y-%m-%dT%H:%M:%S")
         res["verif_commit"] = run("git -C /verif rev-parse --short HEAD").stdout.strip()
         print(json.dumps(res))
